@@ -286,13 +286,26 @@ REPLAY_TARGET = os.path.join(build.CACHE, 'replay-target')
 
 
 def build_replay(quiet=True):
-    """build the replay binary against /repo's current working tree (path dependencies)"""
-    env = dict(os.environ); env.update(CARGO_NET_OFFLINE='true', CARGO_TARGET_DIR=REPLAY_TARGET, RUSTUP_TOOLCHAIN='stable')
-    lock_src = os.path.join(build.REPO, 'Cargo.lock'); lock_dst = os.path.join(REPLAY_DIR, 'Cargo.lock')
-    r = subprocess.run(['cargo', 'build', '--offline', '--quiet'], cwd=REPLAY_DIR, env=env, capture_output=True, text=True)
+    """build the replay binary against the current working tree of the repository under check (path dependencies).
+    For /repo the committed crate in replay/ is used as it is; for another tree (VERIF_REPO, development / seed sweeps) a copy of
+    the crate with re-pointed path dependencies is built in the cache, with its own target directory."""
+    env = dict(os.environ); env.update(CARGO_NET_OFFLINE='true', RUSTUP_TOOLCHAIN='stable')
+    src, target = REPLAY_DIR, REPLAY_TARGET
+    if os.path.realpath(build.REPO) != '/repo':
+        import hashlib, shutil
+        tag = hashlib.sha1(os.path.realpath(build.REPO).encode()).hexdigest()[:10]
+        src = os.path.join(build.CACHE, 'replay-src-' + tag); target = os.path.join(build.CACHE, 'replay-target-' + tag)
+        os.makedirs(os.path.join(src, 'src'), exist_ok=True)
+        shutil.copy(os.path.join(REPLAY_DIR, 'src', 'main.rs'), os.path.join(src, 'src', 'main.rs'))
+        toml = open(os.path.join(REPLAY_DIR, 'Cargo.toml')).read().replace('"/repo/', '"%s/' % os.path.realpath(build.REPO))
+        open(os.path.join(src, 'Cargo.toml'), 'w').write(toml)
+        lock = os.path.join(build.REPO, 'Cargo.lock')
+        if os.path.exists(lock): shutil.copy(lock, os.path.join(src, 'Cargo.lock'))
+    env['CARGO_TARGET_DIR'] = target
+    r = subprocess.run(['cargo', 'build', '--offline', '--quiet'], cwd=src, env=env, capture_output=True, text=True)
     if r.returncode != 0:
         raise RuntimeError('replay build failed:\n' + r.stderr[-3000:])
-    return os.path.join(REPLAY_TARGET, 'debug', 'replay')
+    return os.path.join(target, 'debug', 'replay')
 
 
 _REPLAY_BIN = None
